@@ -368,6 +368,7 @@ func runResizeFirst(c *Ctx) []Obligation {
 // Slots (by shape, whole module; packages osm, encoding, ingest, ingest/compact and api/functions
 // carry C28, others are informational): inside a function literal started with `go` (directly, or
 // through errgroup's Go), every assignment `E = x` where E is an error-typed variable declared
+// (or bound to a local variable that a go statement calls)
 // outside the literal and x is an error-typed variable (not the constant nil, not a fresh
 // fmt.Errorf/errors.New value). Obligation: the assignment is nested in the true branch of an if
 // whose condition tests `x != nil` (or the else branch of `x == nil`).
@@ -398,6 +399,30 @@ func runErrSticky(c *Ctx) []Obligation {
 				case *ast.GoStmt:
 					if fl, ok := ast.Unparen(x.Call.Fun).(*ast.FuncLit); ok {
 						lits = append(lits, fl)
+					}
+					// `feed := func(..){..}; go feed(i)`: a literal bound to a local variable
+					if id, ok := ast.Unparen(x.Call.Fun).(*ast.Ident); ok {
+						v := info.Uses[id]
+						ast.Inspect(fd.Body, func(m ast.Node) bool {
+							if as, ok := m.(*ast.AssignStmt); ok && len(as.Lhs) == len(as.Rhs) {
+								for i, l := range as.Lhs {
+									if lid, ok := l.(*ast.Ident); ok && v != nil && (info.Defs[lid] == v || info.Uses[lid] == v) {
+										if fl, ok := ast.Unparen(as.Rhs[i]).(*ast.FuncLit); ok {
+											dup := false
+											for _, have := range lits {
+												if have == fl {
+													dup = true
+												}
+											}
+											if !dup {
+												lits = append(lits, fl)
+											}
+										}
+									}
+								}
+							}
+							return true
+						})
 					}
 				case *ast.CallExpr:
 					if sel, ok := ast.Unparen(x.Fun).(*ast.SelectorExpr); ok && sel.Sel.Name == "Go" && len(x.Args) == 1 {
